@@ -26,7 +26,14 @@ pub fn vr_of(vr: &[u8; 2]) -> VR {
 
 const SINGLE_TEXT: [&[u8; 2]; 4] = [b"LT", b"ST", b"UT", b"UR"];
 
+/// Text of the model as a Rust string: the generator's non-ASCII samples are either valid UTF-8 (data sets
+/// declaring ISO_IR 192) or ISO 8859-1 bytes that are not valid UTF-8 (data sets declaring ISO_IR 100)
 fn latin1_string(b: &[u8]) -> String {
+    if !b.is_ascii() {
+        if let Ok(s) = std::str::from_utf8(b) {
+            return s.to_string();
+        }
+    }
     b.iter().map(|&c| c as char).collect()
 }
 
